@@ -1,7 +1,7 @@
 """C03 — default classification follows the closest genome's lineage and thresholds."""
 import itertools
 
-from core import nats, opt, exc_kind
+from core import nats, opt, exc_kind, safe_check
 import taxutil as T
 
 PROPS = ('GambitV.Props.C03', 'GambitV.C03')
@@ -64,7 +64,7 @@ def run(ctx):
 	rng = ctx.rng
 
 	def sub(case, tag):
-		lines, pf = check(ctx, case)
+		lines, pf = safe_check(check, ctx, case)
 		nt = case.pop('_nt', False)
 		ctx.submit(case, lines, nontrivial=nt, tags=[tag], pyfails=pf)
 
